@@ -179,7 +179,7 @@ func TestVerifC11Nflog(t *testing.T) {
 	// sanity: the harness-recorded states appear among the captured ones in order
 	if captured[1] != h.states[1] || captured[2] != h.states[2] || captured[len(captured)-1] != h.states[3] {
 		R := rep.New("C11", "nflog-crash")
-		R.Violate("snapshot-does-not-capture-current-state", "a completed snapshot, loaded back, differs from the in-memory state at that instant", map[string]any{"part": "nflog-crash"})
+		R.Violate("snapshot-does-not-capture-current-state", "a completed snapshot, loaded back, differs from the in-memory state at that instant", map[string]any{"rerun": true, "part": "nflog-crash"})
 		R.Write()
 		return
 	}
@@ -204,17 +204,17 @@ func TestVerifC11Nflog(t *testing.T) {
 			where := fmt.Sprintf("%s; files %v; snapshot %d must be visible", im.Desc, names, im.Renames)
 			switch {
 			case pan != nil:
-				R.Violate("loader-panics-on-crash-image", fmt.Sprintf("%v; %s", pan, where), map[string]any{"part": "nflog-crash", "desc": where})
+				R.Violate("loader-panics-on-crash-image", fmt.Sprintf("%v; %s", pan, where), map[string]any{"rerun": true, "part": "nflog-crash", "desc": where})
 			case err != nil:
-				R.Violate("refuses-to-start-after-crash", fmt.Sprintf("loader error %q; %s", err, where), map[string]any{"part": "nflog-crash", "desc": where})
+				R.Violate("refuses-to-start-after-crash", fmt.Sprintf("loader error %q; %s", err, where), map[string]any{"rerun": true, "part": "nflog-crash", "desc": where})
 			case got != want:
-				R.Violate("torn-or-wrong-state-after-crash", fmt.Sprintf("loaded state is not the state captured by snapshot %d; %s", im.Renames, where), map[string]any{"part": "nflog-crash", "desc": where})
+				R.Violate("torn-or-wrong-state-after-crash", fmt.Sprintf("loaded state is not the state captured by snapshot %d; %s", im.Renames, where), map[string]any{"rerun": true, "part": "nflog-crash", "desc": where})
 			}
 			R.AddKey(fmt.Sprint(im.Kind, im.Renames, len(names)))
 			if len(im.Files) > 1 && R.NViolations == 0 && (ctr%5 == 0 || im.Kind == "kill") {
 				R.Transitions++
 				if ok, d := n11Continue(t, im.Files); !ok {
-					R.Violate("leftover-file-breaks-later-snapshot", fmt.Sprintf("%s; crash image: %s", d, where), map[string]any{"part": "nflog-crash", "desc": where})
+					R.Violate("leftover-file-breaks-later-snapshot", fmt.Sprintf("%s; crash image: %s", d, where), map[string]any{"rerun": true, "part": "nflog-crash", "desc": where})
 				}
 			}
 		})
@@ -246,13 +246,13 @@ func TestVerifC11Nflog(t *testing.T) {
 				got, derr = decodeState(bytes.NewReader(snap[:i]))
 			}()
 			if pan != nil {
-				R.Violate("loader-panics", fmt.Sprintf("prefix of %d bytes: %v", i, pan), map[string]any{"part": "nflog-loader", "prefix": i})
+				R.Violate("loader-panics", fmt.Sprintf("prefix of %d bytes: %v", i, pan), map[string]any{"rerun": true, "part": "nflog-loader", "prefix": i})
 				continue
 			}
 			if derr == nil {
 				for k, e := range got {
 					if !proto.Equal(e, st[k]) {
-						R.Violate("partial-record-accepted", fmt.Sprintf("prefix of %d bytes decodes entry %s differently", i, k), map[string]any{"part": "nflog-loader", "prefix": i})
+						R.Violate("partial-record-accepted", fmt.Sprintf("prefix of %d bytes decodes entry %s differently", i, k), map[string]any{"rerun": true, "part": "nflog-loader", "prefix": i})
 					}
 				}
 				R.AddKey(fmt.Sprint("ok", len(got)))
@@ -266,7 +266,7 @@ func TestVerifC11Nflog(t *testing.T) {
 				mut := append([]byte{}, snap...)
 				mut[i] = sub
 				if _, _, pan := n11Load(map[string][]byte{n11Path: mut}); pan != nil {
-					R.Violate("loader-panics", fmt.Sprintf("byte %d replaced by %#x: %v", i, sub, pan), map[string]any{"part": "nflog-loader", "byte": i})
+					R.Violate("loader-panics", fmt.Sprintf("byte %d replaced by %#x: %v", i, sub, pan), map[string]any{"rerun": true, "part": "nflog-loader", "byte": i})
 				}
 			}
 		}
